@@ -350,6 +350,27 @@ def localise_incomplete(prep, pi, skippable):
     return None
 
 
+def static_bool_precondition_params(P, action):
+    """max number of different action parameters occurring in a positive precondition conjunct that is a Boolean fluent no
+    action of P (and no timed effect) writes; 0 when the action has no such conjunct.  (Diagnosis only.)"""
+    written = set()
+    for a in P.actions:
+        for e in getattr(a, "effects", []):
+            written.add(e.fluent.fluent().name)
+    for effs in getattr(P, "timed_effects", {}).values():
+        for e in effs:
+            written.add(e.fluent.fluent().name)
+    best = 0
+    todo = list(getattr(action, "preconditions", []))
+    while todo:
+        c = todo.pop()
+        if c.is_and():
+            todo.extend(c.args)
+        elif c.is_fluent_exp() and c.fluent().type.is_bool_type() and c.fluent().name not in written:
+            best = max(best, len({x.parameter().name for x in c.args if x.is_parameter_exp()}))
+    return best
+
+
 def incomplete_mechanism(prep, fp, pi, skippable, stage, j):
     loc = localise_incomplete(prep, pi, skippable)
     if loc is None:
@@ -375,6 +396,10 @@ def incomplete_mechanism(prep, fp, pi, skippable, stage, j):
                 return "dcrm:dnf-of-precondition-with-constant-true-conjunct-is-false", culprit
             if has_disjunctive_conditional_incdec(P0, steps):
                 return "dcrm:disjunctive-conditional-increase-split-into-effects-that-all-fire", culprit
+        if culprit == "grounder" and j < len(steps) and stage.startswith("no-compiled-instance"):
+            n = static_bool_precondition_params(P0, steps[j][0])
+            if n:
+                return f"grounder:needed-grounding-dropped:positive-static-boolean-precondition-over-{'one-parameter' if n == 1 else 'several-parameters'}", culprit
         if culprit == "ncrm" and not stage.startswith("goal") and mixed_type_object_equality(P_prev):
             return "ncrm:negated-object-equality-enumerates-only-the-objects-of-the-left-operand-type", culprit
         if culprit == "ncrm" and negation_pairs(P_prev, P_next) and "add-after-delete" in executed_features(P0, steps):
